@@ -1131,22 +1131,6 @@ theorem partialId_str : PartialId chkStr isStrV .typeError := by
 
 -- ------------------------------------------------------------------ C20: pure expressions keep the state
 
-mutual
-/-- The call-free part of `pureE`: literals, variables, operators, parentheses, list / tuple literals. -/
-def arithE : Expr → Bool
-  | .int .. => true
-  | .str .. => true
-  | .var .. => true
-  | .binop _ _ _ l r => arithE l && arithE r
-  | .paren _ _ e => arithE e
-  | .list _ _ es => arithL es
-  | .tuple _ _ es => arithL es
-  | _ => false
-def arithL : List Expr → Bool
-  | [] => true
-  | e :: rest => arithE e && arithL rest
-end
-
 theorem bind_state {a : Res × RefSem.St} {k : Val → RefSem.St → Res × RefSem.St} {s : RefSem.St}
     (ha : a.2 = s) (hk : ∀ v, (k v s).2 = s) : (RefSem.bind a k).2 = s := by
   obtain ⟨r, s1⟩ := a
